@@ -1497,6 +1497,11 @@ class Executor:
             # Convert from qlink-layer 1.0
             response = response_from_qlink_1_0(response)
 
+        if response.type == ReturnType.OK_K:
+            # The physical qubit holds (half of) the pair from now on, also if the
+            # response cannot be handled yet: do not hand it out in the meantime.
+            self._used_physical_qubit_addresses.add(response.logical_qubit_id)  # type: ignore
+
         self._pending_epr_responses.append(response)
         self._handle_pending_epr_responses()
 
